@@ -2,9 +2,9 @@ SPECIFICATION Spec
 CONSTANTS
   CRev = 54460
   SRev = 54460
-  Behaviour = "late"
+  Behaviour = "blockw"
   CancelAt = 99
-  Delay = 3
+  Delay = 0
   Limit = 5
   AddendumRev = 54458
   RetryTimeouts = TRUE
